@@ -294,7 +294,8 @@ class Run:
         if l[0] == 'var' and l[1] in self.boxed:
             sub.boxed[p_['id']] = self.boxslot(l[1])
             return True
-        if l[0] == 'var' and not T(g, pt.get('to')).get('const') and not isinstance(self.vars.get(l[1]), tuple):
+        cur_ = self.vars.get(l[1]) if l[0] == 'var' else None
+        if l[0] == 'var' and not T(g, pt.get('to')).get('const') and not (isinstance(cur_, tuple) and cur_[0] in ('R', 'THIS', 'THISOF', 'SLIST', 'DICT', 'OBJ')):
             # a local scalar handed to a non-const reference parameter (an out-parameter): the variable moves into a cell both
             # functions see; it may still be unset
             name = ('V', l[1], id(self))
@@ -1388,6 +1389,10 @@ class Run:
                 continue
             if self.bind_ref(sub, g, p_, a):
                 continue
+            pt_ = T(g, p_['t'])
+            to_ = T(g, pt_.get('to')) if pt_.get('ref') else {}
+            if pt_.get('ref') and not to_.get('const') and (to_.get('int') or to_.get('ptr') or to_.get('flt')):
+                raise Unsupported('non-const reference parameter `%s` of %s bound to an lvalue the interpreter cannot share' % (p_.get('n'), g.get('q')))
             av = self.val(a)
             if isinstance(av, tuple) and av[0] == 'SLIST' and av[1] in self.listsinks:
                 self.listsinks[p_['id']] = self.listsinks[av[1]]
